@@ -5,7 +5,7 @@ import pyspec
 from . import C01, common
 
 ID = "C14"
-LEVEL = "other"
+LEVEL = "proof"
 RULE = ("getters Int64/Uint64/Int/Rat/IsInt/MinPrec on values around 2^63, 2^64, 10^19, 10^38 with and without fractional "
         "parts, exponents -40..40 and extreme, all classes; setters SetInt64/SetUint64/SetInt/SetRat/NewDecimal over int64/uint64 "
         "edge values, big.Int/big.Rat up to thousands of digits, NewDecimal exponents up to +-2^63, receiver precisions incl. 0; "
